@@ -101,6 +101,9 @@ func (op R2m) Op_instruction_verilog_footer(arch *Arch, flavor string) string {
 	ramAddr := ""
 	if arch.HasAny([]string{"r2mri", "r2m"}) {
 		ramAddr += "addr_ram_to_mem"
+	} else {
+		// No opcode writes the RAM: the address chain still needs its final alternative
+		ramAddr += "'b0"
 	}
 
 	if arch.HasOp("m2r") {
